@@ -24,7 +24,7 @@ var (
 	kB = srv.Key{ID: "b", Cipher: "aes-192-gcm", Secret: "s-b"}
 )
 
-func cfgLegacy(withB bool) srv.Cfg {
+func cfgLegacy(kA srv.Key, withB bool) srv.Cfg {
 	c := srv.Cfg{Legacy: []srv.Legacy{{Key: kA, Port: 9000}, {Key: kA, Port: 9001}, {Key: kA, Port: 9002}}}
 	if withB {
 		c.Legacy = append(c.Legacy, srv.Legacy{Key: kB, Port: 9001})
@@ -32,7 +32,7 @@ func cfgLegacy(withB bool) srv.Cfg {
 	return c
 }
 
-func cfg(withB bool) srv.Cfg {
+func cfg(kA srv.Key, withB bool) srv.Cfg {
 	keys2 := []srv.Key{kA}
 	if withB {
 		keys2 = []srv.Key{kB, kA}
@@ -50,6 +50,7 @@ type caseT struct {
 	History int    `json:"history"`
 	Pre     int    `json:"fillers_before"` // distinct handshakes presented on the first service before the original
 	Legacy  bool   `json:"legacy_format"`  // the deprecated per-port key format instead of services
+	EmptyID bool   `json:"empty_key_id,omitempty"` // the access key's id is the empty string (accepted by the configuration check)
 }
 
 type present struct {
@@ -104,15 +105,18 @@ func scenario(c caseT) *engine.Scenario {
 	sc.Body = func() {
 		first, replay, fresh, bootErr = present{}, present{}, present{}, ""
 		w := srv.NewWorld()
-		mk := cfg
+		k := kA
+		if c.EmptyID {
+			k.ID = ""
+		}
+		mk := func(withB bool) srv.Cfg { return cfg(k, withB) }
 		if c.Legacy {
-			mk = cfgLegacy
+			mk = func(withB bool) srv.Cfg { return cfgLegacy(k, withB) }
 		}
 		if err := w.Boot(mk(false), c.History); err != nil {
 			bootErr = err.Error()
 			return
 		}
-		k := kA
 		key := world.MakeKey(k.ID, k.Cipher, k.Secret)
 		for i := 0; i < c.Pre; i++ {
 			presentOn(w, 9000, key, uint64(700+i), 40+i)
@@ -175,6 +179,9 @@ func cases() []caseT {
 				out = append(out, caseT{Where: where, Between: b, History: h})
 				if h == 10 {
 					out = append(out, caseT{Where: where, Between: b, History: h, Legacy: true})
+					if b == "none" || b == "reload" {
+						out = append(out, caseT{Where: where, Between: b, History: h, EmptyID: true}, caseT{Where: where, Between: b, History: h, EmptyID: true, Legacy: true})
+					}
 				}
 				if h <= 10 && b != "other-traffic" {
 					// fill the history first, so that the original lands right after a rotation
